@@ -39,7 +39,7 @@ class FuncUnit:
                                     lambda it, a: self.call(it, world, a),
                                     lambda it, a, r: self.ensures(it, world, a, r), ["C01"],
                                     allow_raises=self.allow_raises, cover=self.cover, prop_map=pm, only_prop=prop,
-                                    check_frame=self.check_frame)
+                                    check_frame=self.check_frame, contracts=self.contracts)
         for o in obs:
             o.kind = "func"
         return obs, info
@@ -234,4 +234,73 @@ def units(world):
     for n in (1, 2, 3):
         for which in ["none", "fresh"] + list(range(n)):
             out.append(mk_wrapper(n, which))
+
+    # ---------------------------------------------------------------- C18: ==, hash, text form
+    MK = {"Time": symargs.mk_time, "Interval": symargs.mk_interval, "Duration": symargs.mk_duration}
+
+    def mk_eq(ca, cb):
+        def setup(it, w):
+            return [_wf_arg(it, w, MK[ca](it, w, "a")), _wf_arg(it, w, MK[cb](it, w, "b"))]
+
+        def call(it, w, a):
+            r = it.eq(a[0], a[1])
+            hs = it.hash_equal(it.hash_(a[0]), it.hash_(a[1]))
+            return (r, hs)
+
+        def ens(it, w, a, r):
+            return FS.eq_clauses(env(it), a[0], a[1], r[0], r[1])
+        return FuncUnit("types.Artifact.__eq__[%s,%s]" % (ca, cb), ["types.Artifact.__eq__", "types.Artifact.__hash__",
+                        "types.%s.__init__" % ca, "types.%s.__init__" % cb], ["C18", "C17", "C12"], setup, call, ens,
+                        prop_map={"safety": ["C18"], "frame": ["C12"]}, cost=3)
+    for ca, cb in (("Time", "Time"), ("Interval", "Interval"), ("Duration", "Duration"), ("Time", "Interval"),
+                   ("Time", "Duration"), ("Interval", "Duration")):
+        out.append(mk_eq(ca, cb))
+
+    TIME_FIRST, TIME_LAST, TIME_FORBID = set("0123456789X"), {")"}, (" - ",)
+
+    def time_str_contract(it, f, args, kwargs):
+        """modular contract of Time.__str__ used by the Interval round trip; its shape facts are the
+        clause `text-form-shape` proved on the real Time.__str__"""
+        from pyvc import tstr
+        return tstr.TStr([tstr.Opaque(args[0], TIME_FIRST, TIME_LAST, TIME_FORBID, "str(Time)")])
+
+    def time_from_str_contract(it, f, args, kwargs):
+        """modular contract of Time.from_str on the text form of a Time: a fresh, value-equal Time
+        (= clause `parse-of-text-form-is-equal` proved on the real Time.__str__/from_str)"""
+        from pyvc import tstr
+        t = args[1]
+        if isinstance(t, tstr.TStr) and len(t.atoms) == 1 and isinstance(t.atoms[0], tstr.Opaque):
+            src = t.atoms[0].obj
+            o = Obj(src.cls, fresh=True)
+            o.attrs = dict(src.attrs)
+            o.attrs["mstart"], o.attrs["mend"] = 0, 0
+            return o
+        raise Unsupported("Time.from_str outside its contract")
+
+    def mk_rt(c):
+        def setup(it, w):
+            return [_wf_arg(it, w, MK[c](it, w, "x"))]
+
+        def call(it, w, a):
+            from pyvc import tstr
+            s = it.call(it.getattr_(a[0], "nb_str"), [], {})
+            shape_ok = None
+            if c == "Time":
+                body = it.call(it.getattr_(a[0], "__str__"), [], {})
+                fc, lc = tstr.shape(body)
+                shape_ok = fc <= TIME_FIRST and lc <= TIME_LAST and all(tstr.cannot_contain(body, x) for x in TIME_FORBID)
+            r = it.call(w.func("corpus.parse_nb_string"), [s], {})
+            return (r, it.eq(r, a[0]), shape_ok)
+
+        def ens(it, w, a, r):
+            return FS.roundtrip_clauses(env(it), a[0], r[0], r[1], r[2])
+        contracts = None
+        if c == "Interval":
+            contracts = {"types.Time.__str__": time_str_contract, "types.Time.from_str": time_from_str_contract}
+        return FuncUnit("corpus.parse_nb_string.nb_str[%s]" % c,
+                        ["corpus.parse_nb_string", "types.Artifact.nb_str", "types.%s.__str__" % c, "types.%s.from_str" % c],
+                        ["C18", "C17", "C12"], setup, call, ens, prop_map={"safety": ["C18"], "frame": ["C12"]}, cost=5,
+                        contracts=contracts)
+    for c in ("Time", "Interval", "Duration"):
+        out.append(mk_rt(c))
     return out
